@@ -270,4 +270,9 @@ def qualify_init(name, case, r):
                 else 'double-assignment-of-identical-reloads' if 'potential double assignment' in msg and 'reload' in msg
                 else 'cannot-match-break' if "cannot match 'break'" in msg else common.digest(msg)[:6])
         return slug
+    if name == 'NoPanic' and 'ComponentRange' in (r.get('error') or '') and any(
+            isinstance(b.get('time'), dict) for v in case['problem']['fleet']['vehicles'] for sh in v['shifts'] for b in sh.get('breaks') or []):
+        # the solver's own failure on problems with required breaks (recorded under C07: a departure of f64::MAX stays in a returned
+        # tour and the writer cannot format it) - no round trip takes place
+        return 'required-break-schedule-out-of-range'
     return 'general'
